@@ -51,18 +51,30 @@ theorem envLookup_default (env : Env) (name d : Bytes) (h : name.all (fun c => c
 
 /-! ### the `${...}` body -/
 
+@[simp] theorem nlCount_nil : nlCount [] = 0 := rfl
+@[simp] theorem nlCount_append (a b : Bytes) : nlCount (a ++ b) = nlCount a + nlCount b := by simp [nlCount]
+theorem nlCount_cons (c : Nat) (b : Bytes) : nlCount (c :: b) = (if c = c_nl then 1 else 0) + nlCount b := by
+  by_cases h : c = c_nl <;> simp [nlCount, h]; omega
+
 theorem dqRun_envBody (env : Env) (body inside acc : Bytes) (nl : Nat) (tail : Bytes)
     (h : body.all (· != c_rbr) = true) :
     dqRun env ⟨.env inside, acc, nl⟩ (body ++ c_rbr :: tail) =
-      dqRun env ⟨.plain, (envLookup env (inside.reverse ++ body)).reverse ++ acc, nl⟩ tail := by
-  induction body generalizing inside with
-  | nil => simp [dqRun, dqStep]
+      dqRun env ⟨.plain, (envLookup env (inside.reverse ++ body)).reverse ++ acc, nl + nlCount body⟩ tail := by
+  induction body generalizing inside nl with
+  | nil => simp [dqRun, dqStep, nlCount]
   | cons c cs ih =>
     simp only [List.all_cons, Bool.and_eq_true, bne_iff_ne, ne_eq] at h
     have hc : c ≠ c_rbr := h.1
-    rw [List.cons_append, dqRun_inl env _ ⟨.env (c :: inside), acc, nl⟩ _ _ (by simp [dqStep, hc])]
-    rw [ih (c :: inside) (by simpa using h.2)]
-    simp
+    rw [List.cons_append, dqRun_inl env _ ⟨.env (c :: inside), acc, if c = c_nl then nl + 1 else nl⟩ _ _ (by simp [dqStep, hc])]
+    rw [ih (c :: inside) _ (by simpa using h.2)]
+    by_cases hn : c = c_nl
+    · subst hn
+      have : nlCount (c_nl :: cs) = nlCount cs + 1 := by simp [nlCount]
+      rw [this]
+      have e : (if c_nl = c_nl then nl + 1 else nl) + nlCount cs = nl + (nlCount cs + 1) := by simp; omega
+      rw [e]; simp
+    · have : nlCount (c :: cs) = nlCount cs := by simp [nlCount, hn]
+      rw [this]; simp [hn]
 
 theorem hasRbr_append_rbr (a b : Bytes) : hasRbr (a ++ c_rbr :: b) = true := by
   induction a with
